@@ -20,7 +20,7 @@ META = {
                     "current global settings); two-qubit gates drawn side by side may be offset by at most 0.25 x duration^2 (documented artistic offset)"],
     "floors": {
         "quick": {"drawings": 3800, "placements_checked": 20000, "rows_checked": 30000, "snapshots_compared": 3800, "unknown_channel_rejected": 300,
-                  "compact_under_nondefault_global": 800, "label_maps_checked": 1000},
+                  "compact_under_nondefault_global": 800, "label_maps_checked": 1000, "isolated_cphase_dots_checked": 300},
         "thorough": {"drawings": 38000, "placements_checked": 200000, "snapshots_compared": 38000, "unknown_channel_rejected": 3000},
     },
 }
@@ -49,6 +49,17 @@ def install_hooks():
         return pivot
 
     TransformConstructor.identifier_to_pivot = identifier_to_pivot
+    # final artists of the two-qubit gates: every dot the drawer puts on the axes (the pivot hook sees positions before the
+    # drawer's own side-by-side arrangement)
+    from qce_circuit.visualization.visualize_circuit.draw_components.multi_pivot_components import DotComponent
+    orig_dot = DotComponent.draw
+
+    def dot_draw(self, axes):
+        c = self.base_transform.center_pivot
+        _HOOKS.setdefault("dots", []).append((float(c.x), float(c.y)))
+        return orig_dot(self, axes)
+
+    DotComponent.draw = dot_draw
     _HOOKS["installed"] = True
 
 
@@ -136,6 +147,7 @@ def check_program(prog: Dict[str, Any], acc: Acc, flags=None):
         occupied = list(dict.fromkeys(q for s in before["listing"] for q in s[0][1]))
         labels = {int(k): v for k, v in opt["labels"].items()} if opt["labels"] is not None else None
         _HOOKS["placements"] = []
+        _HOOKS["dots"] = []
         _HOOKS["description"] = None
         memo_shadow.drain()
         try:
@@ -235,6 +247,31 @@ def _check_drawing(acc: Acc, case, opt, occupied: List[int], labels, S: M.Settin
                         {"op": sig[0], "x": x, "model_starts": sorted(starts)[:6], "compact": opt["compact"]})
             return
         starts.remove(min(hit, key=lambda s: abs(s - x)))
+    # ---- final position of controlled-phase gates that share their time slot with no other two-qubit gate on intersecting rows:
+    #      both dots exactly at start + duration / 2 on the rows of their qubits (the side-by-side arrangement applies to gates
+    #      whose row ranges intersect only)
+    spacing = _HOOKS["placements"][0][4] if _HOOKS["placements"] else 0.0
+    row_of = {ch: i for i, ch in enumerate(rows)}
+    two = [(n, s_, e_) for n, s_, e_ in M.leaf_records(model_level, draw_S, 0.0) if len(n.qubits) == 2 and all(q in row_of for q in n.qubits)]
+    dots = list(_HOOKS.get("dots") or [])
+    if spacing and dots:
+        for n, s_, e_ in two:
+            if n.kind != "CPhase":
+                continue
+            lo, hi = sorted(row_of[q] for q in n.qubits)
+            crowded = any(m is not n and abs(ms - s_) <= TOL and not (max(row_of[q] for q in m.qubits) < lo or min(row_of[q] for q in m.qubits) > hi)
+                          for m, ms, _ in two)
+            if crowded:
+                acc.count("two_qubit_gates_sharing_rows")
+                continue
+            acc.count("isolated_cphase_dots_checked")
+            x_want = s_ + 0.5 * (e_ - s_)
+            for q in n.qubits:
+                y_want = -row_of[q] * spacing
+                if not any(abs(dx - x_want) <= 1e-6 and abs(dy - y_want) <= 1e-6 for dx, dy in dots):
+                    acc.finding("placement/two-qubit-dot", "a controlled-phase gate that shares its rows with no other simultaneous two-qubit gate is not drawn at its start time",
+                                case, {"qubits": list(n.qubits), "expected": [x_want, y_want], "dots": sorted(dots)[:8]})
+                    return
     # ---- figure width
     want_w = max(1.0, latest_end) + 1.0
     if abs(desc.channel_width - want_w) > TOL or abs(size[0] - want_w) > 1e-3:
